@@ -45,9 +45,15 @@ func (v val) str(mask bool) string {
 var t0 = time.Unix(1_700_000_000, 0).UTC()
 var wt = t0.Add(-time.Hour) // the explicit write time
 
+// clk steps by one second per write (set by the harness) and ticks one nanosecond per reading: a write that
+// reads the clock more than once gets different times, which shows when the event and the stored item disagree
 type clk struct{ t time.Time }
 
-func (c *clk) Now() time.Time { return c.t }
+func (c *clk) Now() time.Time {
+	t := c.t
+	c.t = c.t.Add(time.Nanosecond)
+	return t
+}
 
 type wop struct {
 	Kind      string // set add update delete badmask expectfail
@@ -220,9 +226,7 @@ func run(c cfg, hist []wop) (key, msg string) {
 				e := event{id: w.ID, kind: kind, ct: ct}
 				switch kind {
 				case "REMOVE":
-					// Delete reports the clock's time (it takes no write time into account for the event: the
-					// statement's "write's change time" for a delete is the time of the delete)
-					e.ct = now
+					// WithWriteTime: "any change events that may be emitted with this write use t as their ChangeTime"
 					e.oldV, e.newV = old.v.str(c.Mask), "-"
 					delete(ref, w.ID)
 				case "ADD":
@@ -257,6 +261,43 @@ func run(c cfg, hist []wop) (key, msg string) {
 			}
 		}
 		verifrt.WaitIdle()
+		// one write, one time: what a later subscriber is seeded with carries exactly the change time the
+		// live subscriber was given for the item's last write
+		if !c.NoDup && !c.UpdatesOnly && c.SubAfter == 0 {
+			lastCT := map[string]time.Time{}
+			for _, e := range got {
+				if e.kind == "REMOVE" {
+					delete(lastCT, e.id)
+				} else {
+					lastCT[e.id] = e.ct
+				}
+			}
+			lctx, lcancel := context.WithCancel(context.Background())
+			var late []event
+			if c.IsValue {
+				ch := value.Pull(lctx, resource.WithBackpressure(true))
+				go func() {
+					for e := range ch {
+						late = append(late, event{ct: e.ChangeTime})
+					}
+				}()
+			} else {
+				ch := col.Pull(lctx, resource.WithBackpressure(true))
+				go func() {
+					for e := range ch {
+						late = append(late, event{id: e.Id, ct: e.ChangeTime})
+					}
+				}()
+			}
+			verifrt.WaitIdle()
+			lcancel()
+			for _, e := range late {
+				if t, ok := lastCT[e.id]; ok && !t.Equal(e.ct) {
+					fk, fm = "seed-time-differs-from-event-time", fmt.Sprintf("item %q: the live subscriber's last event carries change time %s, a subscriber opened afterwards is seeded with %s", e.id, t.Format(time.RFC3339Nano), e.ct.Format(time.RFC3339Nano))
+					return
+				}
+			}
+		}
 		// compare got with want, allowing the "maybe" positions to be absent
 		gi := 0
 		for wi, e := range want {
@@ -284,6 +325,116 @@ func run(c cfg, hist []wop) (key, msg string) {
 	return fk, fm
 }
 
+// runID: the same edit-script reading for a PullID subscription on id "c": the item's value as the only seed
+// event (flagged seed AND last-seed: it is the final one of this stream), one event per successful write to "c"
+// with the write's change time, nothing for other ids, and the channel closes when "c" is removed.
+func runID(c cfg, hist []wop) (key, msg string) {
+	var fk, fm string
+	res := verifrt.RunOnce(nil, false, func() {
+		ck := &clk{t0}
+		opts := []resource.Option{resource.WithClock(ck)}
+		ref := map[string]item{}
+		for _, id := range []string{"m", "c", "x"}[:c.Initial] {
+			opts = append(opts, resource.WithInitialRecord(id, val{len(id) + 4, "i" + id}.msg()))
+			ref[id] = item{val{len(id) + 4, "i" + id}, t0}
+		}
+		col := resource.NewCollection(opts...)
+		ropts := []resource.ReadOption{resource.WithBackpressure(true), resource.WithUpdatesOnly(c.UpdatesOnly)}
+		if c.Mask {
+			ropts = append(ropts, resource.WithReadMask(&fieldmaskpb.FieldMask{Paths: []string{"default_int32"}}))
+		}
+		ctx, cancel := context.WithCancel(context.Background())
+		defer cancel()
+		var got, want []string
+		closed, wantClosed := false, false
+		subscribed := false
+		subscribe := func() {
+			subscribed = true
+			if it, ok := ref["c"]; ok && !c.UpdatesOnly {
+				want = append(want, fmt.Sprintf("%s@%d seed last", it.v.str(c.Mask), it.ct.Unix()-t0.Unix()))
+			}
+			ch := col.PullID(ctx, "c", ropts...)
+			go func() {
+				for e := range ch {
+					f := ""
+					if e.SeedValue {
+						f += " seed"
+					}
+					if e.LastSeedValue {
+						f += " last"
+					}
+					got = append(got, fmt.Sprintf("%s@%d%s", show(e.Value, c.Mask), e.ChangeTime.Unix()-t0.Unix(), f))
+				}
+				closed = true
+			}()
+		}
+		if c.SubAfter == 0 {
+			subscribe()
+		}
+		for k, w := range hist {
+			now := t0.Add(time.Duration(k+1) * time.Second)
+			ck.t = now
+			ct := now
+			var wo []resource.WriteOption
+			if w.WriteTime {
+				wo = append(wo, resource.WithWriteTime(wt))
+				ct = wt
+			}
+			_, existed := ref[w.ID]
+			var err error
+			ok := false
+			switch w.Kind {
+			case "add":
+				_, err = col.Add(w.ID, w.V.msg(), wo...)
+				ok = !existed
+			case "update":
+				_, err = col.Update(w.ID, w.V.msg(), wo...)
+				ok = existed
+			case "delete":
+				_, err = col.Delete(w.ID, wo...)
+				ok = existed
+			case "badmask":
+				_, err = col.Update(w.ID, w.V.msg(), append(wo, resource.WithUpdatePaths("no_such_field"))...)
+			case "expectfail":
+				_, err = col.Update(w.ID, w.V.msg(), append(wo, resource.WithExpectedValue(val{99, "no"}.msg()))...)
+			}
+			if ok != (err == nil) {
+				fk, fm = "write-result", fmt.Sprintf("%v returned %v, the reference expects success=%v", w, err, ok)
+				return
+			}
+			if ok {
+				if w.Kind == "delete" {
+					delete(ref, w.ID)
+				} else {
+					ref[w.ID] = item{w.V, ct}
+				}
+				if subscribed && w.ID == "c" && !wantClosed {
+					if w.Kind == "delete" {
+						wantClosed = true
+					} else {
+						want = append(want, fmt.Sprintf("%s@%d", w.V.str(c.Mask), ct.Unix()-t0.Unix()))
+					}
+				}
+			}
+			if k+1 == c.SubAfter {
+				subscribe()
+			}
+		}
+		verifrt.WaitIdle()
+		if fmt.Sprint(got) != fmt.Sprint(want) {
+			fk, fm = "id-event", fmt.Sprintf("PullID(c) received %v, the edit script for that item is %v", got, want)
+			return
+		}
+		if closed != wantClosed {
+			fk, fm = "id-closed", fmt.Sprintf("PullID(c) channel closed=%v, expected %v (it ends when the item is removed); received %v", closed, wantClosed, got)
+		}
+	})
+	if fk == "" && res.Status != "ok" {
+		return res.Status, res.Msg
+	}
+	return fk, fm
+}
+
 func histories(isValue bool, n int) [][]wop {
 	var alpha []wop
 	if isValue {
@@ -296,7 +447,7 @@ func histories(isValue bool, n int) [][]wop {
 			alpha = append(alpha,
 				wop{Kind: "add", ID: id, V: val{1, "x"}}, wop{Kind: "add", ID: id, V: val{2, "y"}, WriteTime: true},
 				wop{Kind: "update", ID: id, V: val{1, "x"}}, wop{Kind: "update", ID: id, V: val{1, "y"}, WriteTime: true}, wop{Kind: "update", ID: id, V: val{2, "x"}},
-				wop{Kind: "delete", ID: id})
+				wop{Kind: "delete", ID: id}, wop{Kind: "delete", ID: id, WriteTime: true})
 		}
 		alpha = append(alpha, wop{Kind: "badmask", ID: "c", V: val{3, "z"}}, wop{Kind: "expectfail", ID: "c", V: val{3, "z"}})
 	}
@@ -379,5 +530,47 @@ func main() {
 			s.Sample(map[string]any{"config": cfg{Initial: 3, Mask: true, SubAfter: 1}.String(), "history": fmt.Sprint(hs[len(hs)/2]), "meaning": "the history is applied to a fresh resource with a stepping fake clock; the subscriber is opened before it or after a prefix; at quiescence the received events are compared field by field (id, kind, old, new, change time, seed flags) with the reference edit script"})
 		})
 	}
+	h.Seq("collection-id", func(s *hx.Seq) {
+		var rp struct {
+			C cfg
+			H []wop
+		}
+		if s.Replaying(&rp) {
+			if k, m := runID(rp.C, rp.H); k != "" {
+				s.Fail(k, m, rp)
+			}
+			return
+		}
+		n := 3
+		if s.Thorough {
+			n = 4
+		}
+		for hi, hist := range histories(false, n) {
+			if !s.Own() {
+				continue
+			}
+			for _, init := range []int{0, 1, 2, 3} { // 2: {m, c} - c sorts first; 3: {c, m, x} - c sorts first of three
+				for _, uo := range []bool{false, true} {
+					for _, mask := range []bool{false, true} {
+						for sub := 0; sub <= len(hist)-1; sub++ {
+							if sub > 0 && hi%3 != 0 && !s.Thorough {
+								continue
+							}
+							c := cfg{Initial: init, UpdatesOnly: uo, Mask: mask, SubAfter: sub}
+							s.Eval(1)
+							s.Trans(len(hist))
+							if k, m := runID(c, hist); k != "" {
+								s.Fail(fmt.Sprintf("%s id %v %v", k, c, hist), m, map[string]any{"C": c, "H": hist})
+							}
+							s.State(fmt.Sprint("id", c, hist))
+						}
+					}
+				}
+			}
+			if s.Stop() {
+				return
+			}
+		}
+	})
 	h.Run()
 }
